@@ -168,6 +168,30 @@ class Bench:
             return ('raised', 'InvalidStateTransition')
 
 
+class _SlowListener:
+    def __init__(self, steps: int):
+        self.steps = steps
+
+    async def on_transfer_state_changed(self, transfer, old, new):
+        for _ in range(self.steps):
+            await asyncio.sleep(0)
+
+
+class _LateObserver:
+    """A listener registered behind a slow one: every (old, new) it is told must be an edge of the graph."""
+
+    def __init__(self, direction: str):
+        self.direction = direction
+        self.seen = 0
+        self.bad: list = []
+
+    async def on_transfer_state_changed(self, transfer, old, new):
+        from ..monitors import edge_ok
+        self.seen += 1
+        if not edge_ok(old.name, new.name, self.direction):
+            self.bad.append((old.name, new.name))
+
+
 async def _slow_task(steps: int):
     """Stands in for a transfer task: runs until cancelled, then needs ``steps``
     loop iterations to finish (like 'except CancelledError: await disconnect')."""
@@ -361,6 +385,44 @@ def _run_peer_matrix(params: dict) -> dict:
                 for tt in t.get_tasks():
                     tt.cancel()
                 await asyncio.sleep(0)
+        if direction == 'UPLOAD':
+            # the manager's own requests: the user of the upload gets blocked and the shares/block-list cycle
+            # (manage_shares_changed) asks for an abort, while the upload's task finishes (complete / fail) in the
+            # same or the next loop step - when the abort ends up refused, the abort reason must be untouched
+            from aioslsk.settings import BlockingFlag
+            for finishing in ('complete', 'fail', None):
+                for stagger in (0, 1, 2):
+                    t = await bench.new_transfer(direction)
+                    await bench.drive(t, state)
+                    bench.client.settings.users.blocked['peer'] = BlockingFlag.UPLOADS
+                    n_ops = len(tm.ops)
+                    reason_before = t.abort_reason
+                    state_before = t.state.VALUE.name
+
+                    async def finish():
+                        for _ in range(stagger):
+                            await asyncio.sleep(0)
+                        if finishing == 'complete':
+                            await t.state.complete()
+                        elif finishing == 'fail':
+                            await t.state.fail(reason='Cancelled')
+                    await asyncio.gather(bench.manager.manage_shares_changed(), finish(), return_exceptions=True)
+                    key = tm.key(t)
+                    aborts = [o for o in tm.ops[n_ops:] if o['transfer'] == key and o['op'] == 'abort' and 't_done' in o]
+                    runner.add_obs(res, 'manager_abort_races')
+                    rows.append(('shares-changed', {'finishing': finishing, 'stagger': stagger}, 'returned',
+                                 [(o['op'], o.get('result')) for o in aborts], t.state.VALUE.name))
+                    if aborts and not any(o.get('result') is True for o in aborts):
+                        runner.add_obs(res, 'manager_aborts_refused')
+                        if t.abort_reason != reason_before:
+                            runner.violation(
+                                res, f"refused-manager-abort-side-effect:abort_reason:in-{state_before}:upload",
+                                abort_reason=[str(reason_before), str(t.abort_reason)], finishing=finishing,
+                                stagger=stagger, final_state=t.state.VALUE.name)
+                    bench.client.settings.users.blocked.pop('peer', None)
+                    for tt in t.get_tasks():
+                        tt.cancel()
+                    await asyncio.sleep(0)
         return True
 
     try:
@@ -410,6 +472,18 @@ def _run_concurrent(params: dict) -> dict:
             t = await bench.new_transfer(direction)
             await bench.drive(t, state, slow_steps=slow)
             n_ops0 = len(tm.ops)
+            # application listeners behind the monitor's own: a slow one (suspends for a few loop steps) and a late
+            # observer behind it, which judges every (old, new) it is told against the graph; one of the requesting
+            # tasks may be cancelled while the notification is under way
+            lrng = random.Random(f"{params['seed']}:C03:lst:{params['i']}:{sub}")
+            late = None
+            cancel_after = None
+            if lrng.random() < 0.35:
+                t.state_listeners.append(_SlowListener(lrng.choice([1, 2, 3, 5])))
+                late = _LateObserver(direction)
+                t.state_listeners.append(late)
+                if lrng.random() < 0.6:
+                    cancel_after = (lrng.randrange(k), lrng.randint(0, 8))
 
             # 'eager': the operation's coroutine object is created first (transfer.state is looked up NOW, as in
             # manage_shares_changed's tasks.append(upload.state.abort(...))) and awaited later; 'lazy': looked up
@@ -434,11 +508,22 @@ def _run_concurrent(params: dict) -> dict:
                 return await bench.apply(t, op)
             if eager:
                 coros = [make(o) for o in ops]
-                outcomes = await asyncio.gather(*[issue(o, d, c) for o, d, c in zip(ops, staggers, coros)],
-                                                return_exceptions=True)
+                op_tasks = [asyncio.ensure_future(issue(o, d, c)) for o, d, c in zip(ops, staggers, coros)]
                 # api_* coroutines raise InvalidStateTransition through bench.apply (already mapped)
             else:
-                outcomes = await asyncio.gather(*[issue(o, d) for o, d in zip(ops, staggers)], return_exceptions=True)
+                op_tasks = [asyncio.ensure_future(issue(o, d)) for o, d in zip(ops, staggers)]
+            if cancel_after is not None:
+                for _ in range(cancel_after[1]):
+                    await asyncio.sleep(0)
+                if not op_tasks[cancel_after[0]].done():
+                    op_tasks[cancel_after[0]].cancel()
+                    runner.add_obs(res, 'requests_cancelled_mid_flight')
+            outcomes = await asyncio.gather(*op_tasks, return_exceptions=True)
+            if late is not None:
+                runner.add_obs(res, 'late_observer_edges', late.seen)
+                for edge in late.bad:
+                    runner.violation(res, f'illegal-edge-seen-by-a-later-listener:{edge[0]}->{edge[1]}:{direction.lower()}',
+                                     ops=ops, state=state, staggers=staggers, cancel_after=cancel_after)
             runner.add_obs(res, 'eager_lookup_cases' if eager else 'lazy_lookup_cases')
             for o in outcomes:
                 if isinstance(o, BaseException) and not isinstance(o, asyncio.CancelledError):
